@@ -179,6 +179,20 @@ Theorem C20_response_sent_once :
 Proof. exact (ctl_send_disables_itself nh_today). Qed.
 Print Assumptions C20_response_sent_once.
 
+(* WHOLE SCHEDULES: over any schedule, for every session t and each of the two parties, the number of NatHoleResp sent on
+   behalf of t ([ctl_cnt]: OutResp t role _ _ in the output trace) is 0 or 1; it is exactly 1 for the visitor's control AND
+   exactly 1 for the owner's control once the exchange completed, and 0 for both when the session ended by a timeout or is
+   still waiting.  With C20_response_to_exactly_two (where each copy goes) this is "a response to exactly the two controls". *)
+Theorem C20_each_control_gets_exactly_one :
+  forall auth evs t role,
+  let st := fst (ctl_run nh_today auth ctl_init evs) in let outs := snd (ctl_run nh_today auth ctl_init evs) in
+  0 <= ctl_cnt role t outs <= 1 /\
+  forall s, ctl_find t (st_sess st) = Some s ->
+    (ss_pc s = PcSleep \/ ss_pc s = PcDoneComplete -> ctl_cnt role t outs = 1) /\
+    (ss_pc s = PcDoneTimeout \/ ss_pc s = PcNotify \/ ss_pc s = PcWait \/ ss_pc s = PcAnalyse -> ctl_cnt role t outs = 0).
+Proof. exact (fun auth evs t role => ctl_responses_per_session nh_today auth (nh_T_ok C20_source_tables_check) evs t role). Qed.
+Print Assumptions C20_each_control_gets_exactly_one.
+
 (* all schedules: the invariant (unique sids; in the table exactly while HandleVisitor has not returned; analyzer records intact) *)
 Theorem C20_schedule_invariant :
   forall auth evs, ctl_inv nh_today (fst (ctl_run nh_today auth ctl_init evs)).
